@@ -7,6 +7,7 @@ CONSTANTS
   AllowPtr = TRUE
   AllowConstPtr = FALSE
   AllPerms = FALSE
+  ChainMode = FALSE
   Stepwise = FALSE
   Strict = FALSE
 POSTCONDITION Accepted
